@@ -1,6 +1,7 @@
 package engine
 
 import (
+	"os"
 	"crypto/sha256"
 	"fmt"
 	"go/ast"
@@ -172,6 +173,12 @@ func (e *Engine) VerifyFunction(name string) (res *UnitResult) {
 		}
 		cov := u.oblige("cover", "return", nil, rg, c.True(), "some return is reachable", fn.Pos())
 		cov.Cover = true
+		if len(rets) > 1 {
+			for ri, r := range rets {
+				cov.Parts = append(cov.Parts, &Obligation{Name: fmt.Sprintf("%s@ret%d", cov.Name, ri), Kind: "cover", Guard: r.guard, Prop: c.True(),
+					NAssume: cov.NAssume, Src: cov.Src, Unit: u, Pos: cov.Pos, Cover: true})
+			}
+		}
 	}
 	return res
 }
@@ -379,10 +386,14 @@ func (o *Obligation) RelaxedVC() []*Term {
 
 func (o *Obligation) RelaxedVCGoal() ([]*Term, *Term) {
 	u := o.Unit
+	c := u.c
 	var as []*Term
+	var hsk []*Term // constants for existentials of the hypotheses
 	for _, a := range u.assumptions[:o.NAssume] {
 		if !hasQuant(a) {
 			as = append(as, a)
+		} else if s := u.posSkolem(a, &hsk); !hasQuant(s) {
+			as = append(as, s)
 		}
 	}
 	as = append(as, u.aliasFacts(o.NAssume)...)
@@ -390,21 +401,107 @@ func (o *Obligation) RelaxedVCGoal() ([]*Term, *Term) {
 	var sk []*Term
 	u.substMaps = nil
 	ng := u.negSkolem(o.Prop, &sk)
+	// universally quantified antecedents of the goal (p ==> q with p quantified) are hypotheses of the negated goal:
+	// they are instantiated like the other hypotheses instead of blocking the ground stage
+	var goalHyps []*Term
+	if ng.Op == "and" {
+		var rest []*Term
+		for _, part := range ng.Args {
+			if hasQuant(part) && (part.Op == "forall" || part.Op == "=>" && !hasQuant(part.Args[0])) {
+				goalHyps = append(goalHyps, part)
+			} else {
+				rest = append(rest, part)
+			}
+		}
+		if len(goalHyps) > 0 {
+			ng = c.And(rest...)
+		}
+	}
+	cands := append(append([]*Term{}, sk...), indexTerms([]*Term{o.Guard, ng}, 6)...)
+	cands = append(cands, hsk...)
+	u.instCap = 0
+	cands = append(cands, u.permCandidates(sk)...)
+	if os.Getenv("GOVC_DEBUG") == "5" {
+		for _, k := range cands {
+			fmt.Fprintln(os.Stderr, "cand:", o.Name, trunc(k.String(), 100))
+		}
+	}
+	// two rounds: instances of universally quantified hypotheses may contain existentials, whose witnesses (fresh
+	// constants) are candidates for the second round and for the existentials of the goal
+	seenInst := map[int]bool{}
+	allHyps := append(append([]*Term{}, u.assumptions[:o.NAssume]...), goalHyps...)
+	// modus ponens on quantified antecedents: a hypothesis (g ==>) P ==> Q whose quantified antecedent P is, literally,
+	// one of the formulas asserted by the negated goal contributes (g ==>) Q
+	if len(goalHyps) > 0 {
+		known := map[string]bool{}
+		for _, h := range goalHyps {
+			known[alphaKey(h)] = true
+		}
+		for _, a := range u.assumptions[:o.NAssume] {
+			if !hasQuant(a) {
+				continue
+			}
+			var guards []*Term
+			cur, used := a, false
+			for cur.Op == "=>" {
+				if !hasQuant(cur.Args[0]) {
+					guards = append(guards, cur.Args[0])
+				} else if known[alphaKey(cur.Args[0])] {
+					used = true
+				} else {
+					used = false
+					break
+				}
+				cur = cur.Args[1]
+			}
+			if used {
+				allHyps = append(allHyps, c.Implies(c.And(guards...), cur))
+			}
+		}
+	}
+	round := func(cs []*Term) []*Term {
+		var fresh []*Term
+		for _, in := range u.instantiate(allHyps, cs) {
+			in = u.posSkolem(in, &fresh)
+			if !seenInst[in.id] {
+				seenInst[in.id] = true
+				as = append(as, in)
+			}
+		}
+		return fresh
+	}
+	witnesses := round(cands)
+	if len(witnesses) > 0 && len(witnesses) <= 12 {
+		cands = append(cands, witnesses...)
+		witnesses = append(witnesses, round(cands)...)
+	}
+	u.instCap = 0
+	if hasQuant(ng) {
+		gc := append(append([]*Term{}, cands...), witnesses...)
+		gc = append(gc, indexTerms(as, 10)...)
+		if os.Getenv("GOVC_DEBUG") == "5" {
+			for _, k := range gc {
+				fmt.Fprintln(os.Stderr, "goalcand:", o.Name, trunc(k.String(), 120))
+			}
+		}
+		ng = u.weakenNegExists(ng, gc)
+		u.goalInstCap = 0
+	}
 	if !hasQuant(ng) {
 		as = append(as, ng)
 	}
-	cands := append(append([]*Term{}, sk...), indexTerms([]*Term{o.Guard, ng}, 6)...)
-	as = append(as, u.instantiate(u.assumptions[:o.NAssume], cands)...)
 	of, op := u.instOpenFacts(o.NAssume)
 	as = append(as, of...)
 	as = append(as, u.aliasFactsFor(op, o.NAssume)...)
 	as = append(as, u.frameInstances(as, o.NAssume)...)
 	as = append(as, u.ematch(u.assumptions[:o.NAssume], as)...)
+	as = append(as, u.strOrderInstances(as)...)
 	var qf []*Term
 	for _, a := range as {
 		if !hasQuant(a) {
 			qf = append(qf, a)
 		}
 	}
+	_ = c
 	return qf, ng
 }
